@@ -50,8 +50,62 @@ Definition parse_obs_eqb (x y : parse_obs) : bool :=
   | _, _ => false
   end.
 
+(* The SPECIFICATION's opinion on a spec, from the documented grammar of Spec.v only
+   ([read_field], [term_valid], [denote_field], [unrestricted]) - the bit-set code of the
+   model is not used. It has an opinion when the spec has no TZ=/CRON_TZ= prefix and is not
+   a descriptor, the number of fields fits the option set, and every one of the six
+   (normalised) fields reads as a list of documented items: then the parser must return the
+   six denoted sets (bit 63 = the field is unrestricted) if every item is valid (values in
+   range, ranges not inverted, steps positive), and an error otherwise. [None] = no opinion
+   (syntax outside the documented grammar, e.g. "*-5", "+5", an empty list item: there only
+   the model is compared). *)
+Definition set_of (p : Z -> bool) : N :=
+  fold_left (fun acc k => let x := Z.of_nat k in
+                          if p x then N.lor acc (N.shiftl 1 (Z.to_N x)) else acc)
+            (seq 0 63) 0%N.
+
+(* None: not documented syntax; Some None: documented but invalid; Some (Some bits) *)
+Definition doc_field (f : fspec) (s : list N) : option (option N) :=
+  match read_field f s with
+  | None => None
+  | Some tms =>
+      if forallb (term_valid f) tms
+      then Some (Some (N.lor (set_of (denote_field f tms))
+                             (if unrestricted tms then star_bit else 0%N)))
+      else Some None
+  end.
+
+Definition parse_doc_out (opts : Z) (spec : list N) : option parse_obs :=
+  if has_tz_prefix spec || prefixb (bs "@") spec || new_parser_panics opts then None
+  else
+    match spec with
+    | [] => None
+    | _ =>
+        match normalize_fields (go_fields spec) opts with
+        | Ok [f0; f1; f2; f3; f4; f5] =>
+            match doc_field fs_second f0, doc_field fs_minute f1, doc_field fs_hour f2,
+                  doc_field fs_dom f3, doc_field fs_month f4, doc_field fs_dow f5 with
+            | Some a, Some b, Some c, Some d, Some e, Some f =>
+                match a, b, c, d, e, f with
+                | Some a', Some b', Some c', Some d', Some e', Some f' =>
+                    Some (ObsOk a' b' c' d' e' f')
+                | _, _, _, _, _, _ => Some ObsErr
+                end
+            | _, _, _, _, _, _ => None
+            end
+        | _ => None
+        end
+    end.
+
+(* 2: the observation is not what the documented grammar demands; else 1: it differs from
+   the model; else 0 *)
 Definition check_parse (c : parse_case) : Z :=
-  if parse_obs_eqb (parse_model_out c) (pc_obs c) then 0 else 1.
+  match parse_doc_out (pc_opts c) (pc_spec c) with
+  | Some o => if parse_obs_eqb o (pc_obs c)
+              then (if parse_obs_eqb (parse_model_out c) (pc_obs c) then 0 else 1)
+              else 2
+  | None => if parse_obs_eqb (parse_model_out c) (pc_obs c) then 0 else 1
+  end.
 
 Definition check_parse_case (v : variant) (opts : Z) (spec : list N)
     (zone_oracle : option zone) (dur_oracle : option Z) (observed : parse_obs) : Z :=
